@@ -147,6 +147,7 @@ func (s *Session) prog(mod string) (*Prog, error) {
 		return nil
 	})
 	p.Errors = append(p.Errors, p.checkRegistries()...)
+	p.Errors = append(p.Errors, p.checkRegistryValues()...)
 	if len(p.Errors) > 0 {
 		return p, fmt.Errorf("%s", strings.Join(p.Errors, "; "))
 	}
